@@ -880,8 +880,7 @@ func (fe *FnEnc) typeAssert(x *ssa.TypeAssert) Val {
 		ok = "(not (= " + v.Term + " 0))"
 		val = Val{T: at, Term: v.Term}
 	} else if isIface {
-		fn := fmt.Sprintf("implements_%d", s.typeID(at))
-		s.declFun(fn, []string{"Int"}, "Bool")
+		fn := s.implementsFn(at)
 		ok = "(and (not (= " + v.Term + " 0)) (" + fn + " (ityp " + v.Term + ")))"
 		val = Val{T: at, Term: v.Term}
 	} else {
